@@ -43,7 +43,7 @@ def greens_function(
 
     """
     residue = np.inf
-    num_moments = 10
+    num_moments = min(10, max_moments)
 
     while residue > atol:
         if num_moments > max_moments:
